@@ -362,9 +362,19 @@ def check_routines(ctx, rule='N5'):
                     layers.append(inner)
                     inner = inner[4]
                 doms = [x[2] for x in layers]
+                conds = [a_ for x in layers for a_ in x[3]]
+                # `if any(m == p for p in peers): selected[..] = m` is the inner loop `for p in peers: if m == p: selected[..] = m`
+                # (the store is guarded by "type not selected yet", so only the first match writes)
+                for a_ in list(conds):
+                    t_ = a_[0]
+                    if a_[1] is True and tq.is_call(t_, 'builtins.any') and len(t_[3]) == 1:
+                        g_ = t_[3][0][1]
+                        if g_[0] in ('list', 'tuple') and len(g_[1]) == 1 and isinstance(g_[1][0], tuple) and g_[1][0][0] == 'each':
+                            conds.remove(a_)
+                            doms.append(g_[1][0][2])
+                            conds += list(g_[1][0][3]) + [(g_[1][0][4], True)]
                 ok = sorted(map(tq.text, doms)) == sorted([tq.text(mine_t), tq.text(peer_t)]) and inner[0] == 'kv'
                 m, p_ = ('elem', mine_t, 0), ('elem', peer_t, 0)
-                conds = [a_ for x in layers for a_ in x[3]]
                 eq = strip_ids(I.mk_cmp('==', m, p_))
                 ok = ok and inner[1] == attr(m, 'type') and inner[2] in (m, p_) and (eq, True) in conds \
                     and any(a_[0][0] == 'cmp' and a_[0][1] == 'in' and a_[0][2] == attr(m, 'type') and not a_[1] for a_ in conds) \
@@ -373,8 +383,9 @@ def check_routines(ctx, rule='N5'):
                 ok = ok and layers[-1][2] == mine_t if len(layers) == 2 and False else ok
             # success iff every local type is covered
             cover = [a_ for a_ in pc if a_[0][0] == 'cmp' and a_[0][1] == '==' and tq.find_calls(a_[0], 'builtins.set')]
-            ok = ok and len(cover) == 1 and cover[0][1] is True and tq.contains(cover[0][0], d) and tq.contains(
-                cover[0][0], strip_ids(I.expr('set(x.type for x in self.transforms)')))
+            ok = ok and len(cover) == 1 and cover[0][1] is True and tq.contains(cover[0][0], d) and (
+                tq.contains(cover[0][0], strip_ids(I.expr('set(x.type for x in self.transforms)'))) or
+                tq.contains(cover[0][0], strip_ids(I.expr('{x.type for x in self.transforms}'))))
     ctx.check(ok and all(t == NONE for _, t in none), rule, 'Proposal.intersection: same protocol, one transform per local type (a transform '
               'both sides list, the first match per type wins), success iff every local type is covered, number and SPI of the peer '
               'proposal; otherwise None', key=(rule, 'intersection-shape'), site=ctx.site(it, it.node), detail=detail)
